@@ -661,6 +661,76 @@ def r8_no_clock_or_process_dependence(ctx, res):
         raise AnalysisError('no reference to a compressing / archiving library found (expected gzip.open in wn/project.py)')
 
 
+# ---------------------------------------------------------------------------
+# R9: no default object repr (memory address) in a message or result
+
+def _classes_without_repr(ctx):
+    """classes defined in wn/ -> (has __repr__, has __str__) through their bases inside wn/ (Enum / Exception / tuple / dict / str bases
+    bring their own)"""
+    info = {}
+    for m in ctx.repo.modules.values():
+        for c in m.classes.values():
+            info[c.name] = (c, m)
+    out = {}
+    for name, (c, m) in info.items():
+        has_r = has_s = False
+        foreign = False
+        for b in ctx.repo.mro(c):
+            has_r = has_r or '__repr__' in b.methods
+            has_s = has_s or '__str__' in b.methods
+            for bb in b.node.bases:
+                bn = norm(bb).split('.')[-1].split('[')[0]
+                if bn not in info and bn not in ('object', 'Generic', 'Protocol', 'ABC'):
+                    foreign = True      # Enum, Exception, NamedTuple, TypedDict, str, dict, ...: printable
+        out[name] = (has_r or foreign, has_s or has_r or foreign)
+    return out
+
+
+def r9_no_default_repr_in_text(ctx, res):
+    """text the library produces (error messages included) is a function of content and arguments: an object whose class defines
+    no __repr__ / __str__ prints as `<wn.Wordnet object at 0x7f...>` - the memory address differs between two objects built from
+    the same arguments and between processes.  Every `{x!r}`, `{x}`, repr(x), str(x) whose operand is annotated with (or is
+    `self` of) a class of wn/ without its own text form is reported."""
+    import re
+    classes = _classes_without_repr(ctx)
+    bare = {n for n, (r, s_) in classes.items() if not r}
+    if 'Wordnet' not in classes or len(classes) < 20:
+        raise AnalysisError(f'only {len(classes)} classes of wn/ found')
+    res.note(f'classes of wn/ without __repr__: {sorted(bare)}')
+    n = 0
+    for f in ctx.repo.all_funcs():
+        ann = {}
+        for p_ in f.param_nodes():
+            if p_.annotation is not None:
+                ann[p_.arg] = norm(p_.annotation)
+        if f.cls is not None and f.params and f.params[0] == 'self':
+            ann['self'] = f.cls.name
+        for node in walk_no_nested(f.node):
+            if isinstance(node, ast.AnnAssign) and isinstance(node.target, ast.Name):
+                ann[node.target.id] = norm(node.annotation)
+        for node in walk_no_nested(f.node):
+            operand, how = None, None
+            if isinstance(node, ast.FormattedValue):
+                operand, how = node.value, ('repr' if node.conversion == ord('r') else 'str')
+            elif isinstance(node, ast.Call) and isinstance(node.func, ast.Name) and node.func.id in ('repr', 'str', 'format') and len(node.args) >= 1:
+                operand, how = node.args[0], ('repr' if node.func.id == 'repr' else 'str')
+            if not isinstance(operand, ast.Name) or operand.id not in ann:
+                continue
+            words = set(re.findall(r'[A-Za-z_][A-Za-z_0-9]*', ann[operand.id]))
+            hit = sorted(w for w in words & set(classes) if not classes[w][0 if how == 'repr' else 1])
+            n += 1
+            if hit and not (words & {'str', 'int', 'Optional'} and len(words & set(classes)) == 0):
+                key = f'default-repr:{f.key}:{operand.id}'
+                res.inst(key, f.module.loc(node), f'{how}() of a {hit[0]}')
+                res.find(key, f.module.loc(node),
+                         f'{f.qualname} formats `{operand.id}` ({hit[0]}) with {how}(): {hit[0]} defines no __repr__'
+                         + ('' if how == 'repr' else ' / __str__') + ', so the text contains the object\'s memory address - it differs '
+                         'between two objects built from the same arguments and between processes')
+    res.inst('default-repr:operands-examined', 'wn/', f'{n} formatted operands with a known annotation')
+    if n < 20:
+        raise AnalysisError(f'only {n} annotated operands of string formatting found')
+
+
 RULES = [
     ('C16-R1', r1_ont, 300),
     ('C16-R2', r2_no_hidden_state, 300),
@@ -670,4 +740,5 @@ RULES = [
     ('C16-R6', r6_output_independent_of_locale, 6),
     ('C16-R7', r7_keyless_ordering_is_total, 5),
     ('C16-R8', r8_no_clock_or_process_dependence, 1),
+    ('C16-R9', r9_no_default_repr_in_text, 1),
 ]
